@@ -419,7 +419,8 @@ def thorough_extras(prop, sel, repo, known):
             shutil.rmtree(d, ignore_errors=True)
     # ---- (2) recorded findings still manifest on the real code
     kf = [k for k in known if k["property"] == prop]
-    replays = {"C01": [("notes/design-phase-replays.rs", "f4_own_immediate_merge_has_no_snapshot")],
+    replays = {"C01": [("notes/design-phase-replays.rs", "f4_own_immediate_merge_has_no_snapshot"), ("findings/f13_replay.rs", "verif_replay_f13")],
+               "C02": [("findings/f13_replay.rs", "verif_replay_f13b")],
                "C16": [("notes/design-phase-replays.rs", "f3_welcome_for_held_group_id_disturbs_active_group")],
                "C06": [("findings/f10_replay.rs", "verif_replay_f10"), ("findings/f12_replay.rs", "verif_replay_f12")],
                "C08": [("findings/f12_replay.rs", "verif_replay_f12")],
